@@ -13,7 +13,8 @@ Replay driver for C46.  Floats are the 16 hex digits of their IEEE bits.
       mu updates, termination status) is the model's own.  Output:
         <status> i=<iters> nres=<#calls> x=<..> T=<x..:y:reduction:mu;...> C=<call points;...>
       `<spec>` (the implementation's problem description) is ignored.
-  witness lo hi x D   -> dupper, candidate x + D*dupper, inside|outside   (one coordinate clamped above)
+  witness lo hi x D   -> dupper, unclipped x + D*dupper, inside|outside, clipped candidate, inside|outside
+                         (one coordinate, box-QP answer clamped at the upper bound)
 -/
 open MjProof MjProof.Driver MjProof.LeastSquares
 
@@ -99,9 +100,10 @@ def step (line : String) : String :=
     | some _lo, some hi, some x, some D =>
       match dBound [hi] [x] [D] with
       | [du] =>
-        match candidate [x] [D] [du] with
-        | [xn] => s!"{floatBits du} {floatBits xn} {if hi < xn then "outside" else "inside"}"
-        | _ => "bad-op"
+        match candidate [x] [D] [du], clipStart (some ([_lo], [hi])) (candidate [x] [D] [du]) with
+        | [xn], [xc] =>
+          s!"{floatBits du} {floatBits xn} {if hi < xn then "outside" else "inside"} {floatBits xc} {if hi < xc || xc < _lo then "outside" else "inside"}"
+        | _, _ => "bad-op"
       | _ => "bad-op"
     | _, _, _, _ => "bad-op"
   | _ => "bad-op"
